@@ -4,6 +4,7 @@ package store
 
 import (
 	"io"
+	"time"
 )
 
 // verifMemApp is an in-memory appendable.Appendable used to drive store code without files.
@@ -80,3 +81,34 @@ func VerifNewWriteOnlyTx() *OngoingTx {
 
 // VerifPendingEntries exposes the pending write set of a transaction.
 func VerifPendingEntries(tx *OngoingTx) []*EntrySpec { return tx.entries }
+
+
+// verifVersionRef builds the value reference of an index version: kind 0 = live, 1 = logically
+// deleted, 2 = expired (relative to verifNow), and applies the read filters as the real snapshot
+// does: the first filter error is returned.
+func verifVersionRef(tx uint64, kind byte, filters []FilterFn) (ValueRef, error) {
+	if tx == 0 {
+		return nil, ErrKeyNotFound
+	}
+	var md *KVMetadata
+	switch kind {
+	case 1:
+		md = NewKVMetadata()
+		md.AsDeleted(true)
+	case 2:
+		md = NewKVMetadata()
+		md.ExpiresAt(time.Unix(1, 0))
+	}
+	ref := &valueRef{tx: tx, kvmd: md}
+	for _, f := range filters {
+		if f == nil {
+			continue
+		}
+		if err := f(ref, verifNow()); err != nil {
+			return nil, err
+		}
+	}
+	return ref, nil
+}
+
+func verifNow() time.Time { return time.Unix(1000, 0) }
